@@ -15,6 +15,7 @@ pub mod privsim;
 pub mod xrate;
 pub mod tx;
 pub mod acctlife;
+pub mod payout;
 
 pub fn lookup(name: &str) -> Option<fn(&str) -> String> {
     Some(match name {
@@ -40,6 +41,7 @@ pub fn lookup(name: &str) -> Option<fn(&str) -> String> {
         "txsim" => tx::run_sim,
         "txend" => tx::run_end,
         "acctlife" => acctlife::run,
+        "payout" => payout::run,
         _ => return None,
     })
 }
